@@ -1,7 +1,7 @@
 (* Pinned statements of C10 (generated once by tools/mkpins.py from coq/props/C10.v, then committed). *)
 From DV Require Import Model.Base Model.NameCheck Model.Parser Model.Header Model.Readers Model.Uncompress
   Model.Mutate Spec.PlainSpec Proofs.Hoare Proofs.HeaderBits Proofs.InsertLemmas Proofs.PlainWf Proofs.InsertFail Proofs.InsertSpec Proofs.HeaderInv Spec.RecordSpec Proofs.WalkSkip Proofs.ReplaceInv Proofs.Totality
-  Model.Renamer Proofs.FailAtomic props.C10.
+  Model.Renamer Proofs.FailAtomic Spec.NameSpec Proofs.RenameSpec Proofs.RenameContent props.C10.
 Check (C10_insert_bound : forall sec rr s s',
   m_insert_rr sec rr s = (s', Ok tt) -> (N.of_nat (length (pp_packet (fst s'))) <= 8192)%N).
 Print Assumptions C10_insert_bound.
@@ -53,3 +53,15 @@ Check (C10_failed_rename_changes_nothing : forall target source sfx st st' e,
 Print Assumptions C10_failed_rename_changes_nothing.
 Check (C10_failed_recompute_changes_nothing : forall st st' e, m_recompute st = (st', Err e) -> st' = st).
 Print Assumptions C10_failed_recompute_changes_nothing.
+Check (C10_rename_keeps_edns_summary : forall p v sl tl sfx out f, bytes_ok p -> parse p = Ok v ->
+  Forall lab sl -> Forall lab tl -> sl <> [] -> tl <> [] -> bytes_ok (wire_of_labels tl) ->
+  length (wire_of_labels sl) <= 255 -> length (wire_of_labels tl) <= 255 ->
+  renamer_rename v (wire_of_labels tl) (wire_of_labels sl) sfx = Ok out -> parse out = Ok f ->
+  edns_summary_same v f = true).
+Print Assumptions C10_rename_keeps_edns_summary.
+Check (C10_rename_total : forall p v it sl tl sfx, bytes_ok p -> parse p = Ok v ->
+  Forall lab sl -> Forall lab tl -> sl <> [] -> tl <> [] -> bytes_ok (wire_of_labels tl) ->
+  length (wire_of_labels sl) <= 255 -> length (wire_of_labels tl) <= 255 ->
+  (exists s', m_rename (wire_of_labels tl) (wire_of_labels sl) sfx (v, it) = (s', Ok tt)) \/
+  (exists e, m_rename (wire_of_labels tl) (wire_of_labels sl) sfx (v, it) = ((v, it), Err e))).
+Print Assumptions C10_rename_total.
